@@ -1243,6 +1243,34 @@ impl Gen {
                     A::T(t) => Op::TokSend { t, s: u, d: e.router, amt, hook: Hook::ROps { ops, min, to: Some(p1.addr) } },
                 }
             }
+            "route" if r.chance(1, 14) && e.pairs.len() >= 2 => {
+                // two independent swaps in one route, [a->b, c->d], with *both* inputs funded: nothing but the route-shape
+                // check stands between this message and success (two dangling outputs)
+                let obs = &e.pairs[..e.pairs.len().min(8)];
+                let p1 = r.pick(obs).clone();
+                let p2 = r.pick(obs).clone();
+                let dir = |r: &mut Rng, p: &PairMeta| -> (A, A) {
+                    match (p.a0, p.a1) {
+                        (A::N(_), A::T(_)) => (p.a0, p.a1),
+                        (A::T(_), A::N(_)) => (p.a1, p.a0),
+                        _ => if r.chance(1, 2) { (p.a0, p.a1) } else { (p.a1, p.a0) },
+                    }
+                };
+                let (a, b) = dir(r, &p1);
+                let (c, d) = dir(r, &p2);
+                let ops = if r.chance(1, 2) { vec![(a, b), (c, d)] } else { vec![(c, d), (a, b)] };
+                let mut funds: Coins = vec![];
+                for (x, pp) in [(a, &p1), (c, &p2)] {
+                    if let A::N(dn) = x {
+                        if !funds.iter().any(|f| f.0 == dn) {
+                            let amt = (e.bal(x, pp.addr) / (20 + r.below(200) as u128)).min(e.bal(x, u) / 4) + 1;
+                            funds.push((dn, amt));
+                        }
+                    }
+                }
+                e.q_router(false, funds.first().map(|f| f.1).unwrap_or(1), &ops);
+                Op::ROps { s: u, funds, ops, min: None, to }
+            }
             "route" => {
                 let ops = self.route(e, r);
                 let first_offer = ops.first().map(|x| x.0).unwrap_or(pm.a0);
